@@ -581,6 +581,7 @@ func main() {
 		bounds[ls.Name] = map[string]any{"depth": d, "histories": n, "wall_s": time.Since(t).Seconds()}
 		fmt.Printf("  %-70s depth %d histories %d  %.1fs\n", ls.Name, d, n, time.Since(t).Seconds())
 	}
+	jumpPart(r) // the worker services a tick late (jump.go)
 	r.Set("bounds", bounds)
 	r.Set("traces_validated_against_impl", nloop)
 	r.Finish()
